@@ -76,6 +76,10 @@ func baseTypes() []keyType {
 		{"uint32", "uint32", []string{"0", "4294967295", "2147483648", "1"}},
 		{"Uintptr", "Uintptr", []string{"0", "4294967295", "7"}},
 		{"int64", "int64", []string{"0", "1", "1<<32", "-1", "-1<<63"}},
+		{"int64b", "int64", []string{"1<<53", "1<<53 + 1", "-1<<63 + 1", "-1<<63", "1<<63 - 1", "1<<63 - 2"}},
+		{"uint64b", "uint64", []string{"1<<53", "1<<53 + 1", "1<<64 - 1", "1<<64 - 2", "1<<63", "1<<63 + 1"}},
+		{"anyI64", "interface{}", []string{"int64(1<<53)", "int64(1<<53 + 1)", "uint64(1<<53)", "uint64(1<<53 + 1)", "float64(1<<53)"}},
+		{"stI64b", "struct{ a int64 }", []string{"struct{ a int64 }{1 << 60}", "struct{ a int64 }{1<<60 + 1}", "struct{ a int64 }{-1 << 60}"}},
 		{"uint64", "uint64", []string{"0", "1<<32", "1<<63", "1<<64 - 1", "1"}},
 		{"float32", "float32", []string{"0", "float32(negz)", "1.5", "f32nan", "float32(inf)"}},
 		{"float64", "float64", []string{"0", "negz", "1.5", "nan", "-inf", "1e-320"}},
@@ -105,6 +109,9 @@ func baseTypes() []keyType {
 		{"empty", "struct{}", []string{"struct{}{}"}},
 		{"MyArr", "MyArr", []string{`MyArr{"a$", "b"}`, `MyArr{"a", "$b"}`, `MyArr{"", ""}`}},
 		{"stSS", "struct{ a, b string }", []string{`struct{ a, b string }{"a$b", ""}`, `struct{ a, b string }{"a", "b"}`, `struct{ a, b string }{"a", "$b"}`, `struct{ a, b string }{"a$", "b"}`, `struct{ a, b string }{"", "a$b"}`}},
+		{"stSS2", "struct{ a, b string }", []string{`struct{ a, b string }{"a\\", "$b"}`, `struct{ a, b string }{"a$\\", "b"}`, `struct{ a, b string }{"a\\$", "b"}`, `struct{ a, b string }{"a", "\\$b"}`, `struct{ a, b string }{"a\\", "b"}`}},
+		{"MyPair2", "MyPair", []string{`MyPair{"a\\", "$b"}`, `MyPair{"a$\\", "b"}`, `MyPair{"\\", "$"}`, `MyPair{"$\\", ""}`, `MyPair{"", "\\$"}`}},
+		{"anyPair", "interface{}", []string{`MyPair{"a\\", "$b"}`, `MyPair{"a$\\", "b"}`, `[2]string{"a\\", "$b"}`, `[2]string{"a$\\", "b"}`}},
 		{"MyPair", "MyPair", []string{`MyPair{"a$b", ""}`, `MyPair{"a", "b"}`, `MyPair{"a", "$b"}`, `MyPair{"a$", "b"}`}},
 		{"stIS", "struct{ a Int; b string }", []string{`struct{ a Int; b string }{1, "2"}`, `struct{ a Int; b string }{12, ""}`, `struct{ a Int; b string }{1, "$2"}`, `struct{ a Int; b string }{-1, "$"}`}},
 		{"stFS", "struct{ f float64; s string }", []string{`struct{ f float64; s string }{0, "x"}`, `struct{ f float64; s string }{negz, "x"}`, `struct{ f float64; s string }{nan, "x"}`, `struct{ f float64; s string }{1, ""}`}},
